@@ -20,8 +20,7 @@ def target_dir(ctx):
     return os.path.join(common.WORK, "target-gendrv-%s" % ctx.tier)
 
 
-def emit_with(profile, d, ctx, exclude, reduced):
-    binary = common.cargo_build("layoutmon", profile)
+def emit_with(binary, what, d, ctx, exclude, reduced):
     count = 8 if ctx.quick else 48
     caps = "0,5" if ctx.quick else "0,1,8"
     cmd = [binary, "emit", "--seed", str(ctx.seed), "--count", str(count), "--out-dir", d, "--caps", caps]
@@ -31,53 +30,69 @@ def emit_with(profile, d, ctx, exclude, reduced):
         cmd += ["--reduced", ",".join(sorted(reduced))]
     rc, out, err = common.sh(cmd, timeout=600)
     if rc != 0:
-        raise Inconclusive("emitter (%s build) failed: %s" % (profile, (err or "")[-500:]))
+        raise Inconclusive("emitter (%s) failed: %s" % (what, (err or "")[-500:]))
     return json.load(open(os.path.join(d, "manifest.json")))
 
 
 def emit(ctx, exclude=(), reduced=()):
-    """Emits the generated-driver crate. The generator runs twice: built with debug assertions
-    and overflow checks (the crate), and built the way a release build builds a build script's
-    dependencies (a sibling directory). Where the release-built generator writes a different
-    text for a module, that text (and its driver) replaces the other one, so that it is the
-    one compiled and executed; on a tree where both agree this changes nothing."""
+    """Emits the generated-driver crate. The generator runs in three builds: with debug
+    assertions and overflow checks (the crate), the way a release build builds a build script's
+    dependencies, and with every cargo feature of truc switched on (sibling directories). Where
+    another build of the generator writes a different text for a module, that text (and its
+    driver) replaces the first one, so that it is the one compiled and executed; on a tree where
+    all agree this changes nothing. When both differ, odd modules take the all-features text and
+    even ones the release text."""
     d = crate_dir(ctx)
-    d2 = d + "-relgen"
+    builds = [("release-built generator", common.cargo_build("layoutmon", "release"), "release")]
+    allf, feats = common.cargo_build_all_features("layoutmon", "fastdebug")
+    if allf:
+        builds.append(("generator built with the cargo features %s of truc" % ", ".join(feats), allf, "all_features"))
+    base = common.cargo_build("layoutmon", "fastdebug")
     with common.Lock("gendrv-emit"):
-        manifest = emit_with("fastdebug", d, ctx, exclude, reduced)
-        manifest2 = emit_with("release", d2, ctx, exclude, reduced)
+        manifest = emit_with(base, "debug-assertions build", d, ctx, exclude, reduced)
         status = {m["module"]: m["status"] for m in manifest["modules"]}
-        same = differ = 0
-        for m in manifest2["modules"]:
-            name = m["module"]
-            if m["status"] != "emitted":
-                if status.get(name) == "emitted":
-                    m2 = dict(m)
-                    m2["status"] = "release-built generator: " + m["status"]
-                    if not any(g["module"] == name and g["status"] == m2["status"] for g in ctx.gen_failures):
-                        ctx.gen_failures.append(m2)
-                continue
-            if status.get(name) != "emitted":
-                continue
-            changed = False
-            for f in ("m%s.rs", "d%s.rs"):
-                a = os.path.join(d, "src", f % name[1:])
-                b = os.path.join(d2, "src", f % name[1:])
-                if not os.path.exists(b):
+        original = {}
+        replaced = set()
+        for what, binary, key in builds:
+            d2 = d + "-" + key
+            manifest2 = emit_with(binary, what, d2, ctx, exclude, reduced)
+            same = differ = 0
+            for m in manifest2["modules"]:
+                name = m["module"]
+                if m["status"] != "emitted":
+                    if status.get(name) == "emitted":
+                        m2 = dict(m)
+                        m2["status"] = "%s: %s" % (what, m["status"])
+                        if not any(g["module"] == name and g["status"] == m2["status"] for g in ctx.gen_failures):
+                            ctx.gen_failures.append(m2)
                     continue
-                tb = open(b).read()
-                if not os.path.exists(a) or open(a).read() != tb:
-                    with open(a, "w") as fh:
-                        fh.write(tb)
-                    changed = True
-            if changed:
-                differ += 1
-            else:
-                same += 1
-        ctx.counters["modules_with_identical_text_from_the_release_built_generator"] = same
-        if differ:
-            ctx.counters["modules_taken_from_the_release_built_generator_because_its_text_differs"] = differ
-        shutil.rmtree(d2, ignore_errors=True)
+                if status.get(name) != "emitted":
+                    continue
+                texts = {}
+                changed = False
+                for f in ("m%s.rs", "d%s.rs"):
+                    a = os.path.join(d, "src", f % name[1:])
+                    b = os.path.join(d2, "src", f % name[1:])
+                    if not os.path.exists(b):
+                        continue
+                    if a not in original:
+                        original[a] = open(a).read() if os.path.exists(a) else None
+                    texts[a] = open(b).read()
+                    if original[a] != texts[a]:
+                        changed = True
+                if changed:
+                    differ += 1
+                    if name not in replaced or int(name[1:]) % 2 == 1:
+                        replaced.add(name)
+                        for a, t in texts.items():
+                            with open(a, "w") as fh:
+                                fh.write(t)
+                else:
+                    same += 1
+            ctx.counters["modules_with_identical_text_from_the_%s_generator" % key] = same
+            if differ:
+                ctx.counters["modules_whose_text_differs_from_the_%s_generator" % key] = differ
+            shutil.rmtree(d2, ignore_errors=True)
     return d, manifest
 
 
